@@ -47,23 +47,28 @@ def _split_linear(R):
 
 
 def exec_nl(rec):
+    """one NonlinearForm object (and, for integrands linear in u, one BilinearForm / LinearForm object), assembled in a
+    call history: at rec['x'], at further linearisation points written IN PLACE into the same array object, and then -
+    the same form objects - on a second basis of the same mesh (other cells / facets, equal array shapes).  Every
+    call is one event judged by the definition with the data of THAT call."""
     from skfem import BilinearForm, LinearForm
     from skfem.autodiff import NonlinearForm
     kind = rec['mesh']['kind']
     attrs = ('value', 'grad') if rec.get('grad') else ('value',)
+    R, mode = rec['R'], rec['mode']
+    prm = {'alpha': rec['alpha']}
+    forms = {}
+    kw = {f['name']: np.array(f['val'], dtype=np.float64) for f in rec['fields'] if f['kind'] == 'val'}
 
-    def run():
-        mesh = fem.make_mesh(rec['mesh'])
-        basis = fem.make_basis(mesh, kind, rec['bs'])
+    def one_call(basis, x, tags):
         acc = fem.accessors(basis.basis[0], attrs)
         B = fem.basis_pi(basis, acc)
         if B is None:
             raise fem.TooLarge()
         shape = (B['nel'], B['nq'])
-        kw, facc, fenv, fs = {}, {}, {}, {}
+        facc, fenv, fs = {}, {}, {}
         for f in rec['fields']:
             if f['kind'] == 'val':
-                kw[f['name']] = np.array(f['val'], dtype=np.float64)
                 facc[f['name']] = [(0, 'value', ())]
                 fenv[f['name']] = {'nc': 1, 's': 1, 'val': [f['val']]}
                 fs[f['name']] = 1
@@ -76,34 +81,32 @@ def exec_nl(rec):
                 fenv[f['name']] = {'nc': pi['nc'], 's': pi['s'], 'val': pi['val']}
                 fs[f['name']] = pi['s']
         accs = {'u': acc, 'v': acc, 'f': facc}
-        prm = {'alpha': rec['alpha']}
-        R = rec['R']
-        mode = rec['mode']
         nf = len(basis.basis[0])
         S = fem.term_scale(R, B['sphi'], B['sphi'], fs) * B['sdx']
-        if mode == 'hessian':
-            def energy(*args):
-                return fem.ev_term(R, args[:-1], None, args[-1], accs)
-            form = NonlinearForm(energy, hessian=True)
-        else:
-            form = NonlinearForm(fem.bilinear_callable(R, accs, nf))
-        x = np.array(rec['x'], dtype=np.float64)
-        J, rhs = form.assemble(basis, x=x, **dict(kw), **prm)
+        if 'nl' not in forms:
+            if mode == 'hessian':
+                def energy(*args):
+                    return fem.ev_term(R, args[:-1], None, args[-1], accs)
+                forms['nl'] = NonlinearForm(energy, hessian=True)
+            else:
+                forms['nl'] = NonlinearForm(fem.bilinear_callable(R, accs, nf))
+            if rec.get('lin'):
+                Ra, Rl = _split_linear(R)
+                forms['a'] = BilinearForm(fem.bilinear_callable(Ra, accs, nf))
+                forms['l'] = LinearForm(fem.linear_callable(Rl, accs)) if Rl is not None else None
+        xin = [int(v) for v in x]                      # the contents of x at the time of the call
+        J, rhs = forms['nl'].assemble(basis, x=x, **dict(kw), **prm)
         ok = True
         trip, o = fem.csr_trip(J, S)
         ok &= o
         r = _ints(np.asarray(rhs), S)
         ok &= r is not None
         ev = {'a': 'NL', 'err': '', 'exact': 1, 'mode': mode, 'B': B, 'env': {'fld': fenv, 'prm': prm}, 'R': R, 'S': int(S),
-              'x': [int(v) for v in rec['x']], 'J': {'shape': [int(s) for s in J.shape], 'trip': trip}, 'rhs': r or [],
-              'lin': 0, 'A': {'shape': [0, 0], 'trip': []}, 'b': []}
+              'x': xin, 'J': {'shape': [int(s) for s in J.shape], 'trip': trip}, 'rhs': r or [],
+              'lin': 0, 'A': {'shape': [0, 0], 'trip': []}, 'b': [], 'tags': tags}
         if rec.get('lin'):
-            Ra, Rl = _split_linear(R)
-            A = BilinearForm(fem.bilinear_callable(Ra, accs, nf)).assemble(basis, **dict(kw), **prm)
-            if Rl is not None:
-                b = LinearForm(fem.linear_callable(Rl, accs)).assemble(basis, **dict(kw), **prm)
-            else:
-                b = basis.zeros()
+            A = forms['a'].assemble(basis, **dict(kw), **prm)
+            b = forms['l'].assemble(basis, **dict(kw), **prm) if forms['l'] is not None else basis.zeros()
             tA, o = fem.csr_trip(A, S)
             ok &= o
             fem.guard_sum([t[2] for t in tA], int(np.abs(x).max()) if len(x) else 0)
@@ -112,12 +115,37 @@ def exec_nl(rec):
             ev.update(lin=1, A={'shape': [int(s) for s in A.shape], 'trip': tA}, b=bi or [])
         ev['exact'] = 1 if ok else 0
         return ev
-    ev, err = guarded(run, 120)
-    if err == 'TooLarge':
+
+    state = {}
+
+    def call(which, step, reuse):
+        def go():
+            if 'mesh' not in state:
+                state['mesh'] = fem.make_mesh(rec['mesh'])
+                state['x'] = np.array(rec['x'], dtype=np.float64)
+            if which not in state:
+                state[which] = fem.make_basis(state['mesh'], kind, rec[which])
+            x = state['x']
+            if step > 0:                                   # Newton-like history: the same array, updated in place
+                xn = np.array(rec['xs'][step - 1], dtype=np.float64)
+                if step % 2:
+                    x += xn - x
+                else:
+                    x[:] = xn
+            return one_call(state[which], x, {'step': step, 'reuse': reuse})
+        ev, err = guarded(go, 120)
+        if err == 'TooLarge':
+            raise fem.TooLarge()
+        return ev if not err else {'a': 'NL', 'err': err, 'tags': {'step': step, 'reuse': reuse}}
+    try:
+        events = [call('bs', 0, 0)]
+        for k in range(1, len(rec.get('xs', [])) + 1):
+            events.append(call('bs', k, 0))
+        if rec.get('bs2'):
+            events.append(call('bs2', 0, 1))
+    except fem.TooLarge:
         return []
-    if err:
-        ev = {'a': 'NL', 'err': err}
-    return [ev]
+    return events
 
 
 NL_ELEMS = {
@@ -132,10 +160,11 @@ NL_ELEMS = {
 
 def gen_nl(rng):
     from .c19 import _basis_spec
+    from .c01 import _alt_subset
     kind = str(rng.choice(['line', 'tri', 'tri', 'tri', 'quad', 'quad', 'tet', 'hex']))
     mrec = fem.lattice_mesh(kind, rng)
     mesh = fem.make_mesh(mrec)
-    g = _basis_spec(rng, kind, mesh, allow=('cell', 'cell', 'cell', 'cellsub', 'facet', 'ifacet'))
+    g = _basis_spec(rng, kind, mesh, allow=('cell', 'cell', 'cellsub', 'cellsub', 'facet', 'facetsub', 'ifacet'))
     if g is None:
         return None
     bs, btype, _ = g
@@ -156,23 +185,34 @@ def gen_nl(rng):
     if basis.Nbfun ** 2 * nel * nq > 1500 or basis.N > 40:
         return None
     fields, avail = [], []
-    if rng.integers(0, 2):
+    # the same form object is assembled afterwards on a second basis of the same mesh (other cells / facets, equal
+    # array shapes); the integrand then uses the default fields w.x (and w.n on facets), which differ between the two
+    alt = _alt_subset(rng, mesh, bs)
+    reuse = alt is not None and bool(rng.integers(0, 3))
+    if reuse or rng.integers(0, 2):
         fields.append({'name': 'x', 'kind': 'default'})
         avail.append(('x', mesh.dim()))
+    if bs['type'] != 'cell' and (reuse or rng.integers(0, 2)):
+        fields.append({'name': 'n', 'kind': 'default'})
+        avail.append(('n', mesh.dim()))
     if rng.integers(0, 2):
         fields.append({'name': 'g', 'kind': 'val', 'val': [[int(v) for v in row] for row in rng.integers(-2, 3, size=(nel, nq))]})
         avail.append(('g', 1))
     mode = str(rng.choice(['residual', 'residual', 'residual', 'hessian', 'linear']))
     maxdeg = 3 if B['sphi'] <= 2 else 2
     ss = []
-    for _ in range(int(rng.integers(1, 4))):
+    for it in range(int(rng.integers(1, 4))):
         if mode == 'linear':
             nu_ = int(rng.integers(0, 2))
         elif mode == 'hessian':
             nu_ = int(rng.integers(1, maxdeg + 1))
         else:
             nu_ = int(rng.integers(0, maxdeg + 1))
-        fac = fem.gen_coef(rng, avail, ['alpha'], allow_two=False) + [['u', int(rng.integers(1, nc + 1))] for _ in range(nu_)]
+        coef = fem.gen_coef(rng, avail, ['alpha'], allow_two=False)
+        if reuse and it == 0:
+            dname, dn = avail[int(rng.integers(0, 2 if bs['type'] != 'cell' else 1))]
+            coef = [['f', dname, int(rng.integers(1, dn + 1))]]
+        fac = coef + [['u', int(rng.integers(1, nc + 1))] for _ in range(nu_)]
         if mode != 'hessian':
             fac.append(['v', int(rng.integers(1, nc + 1))])
         if not fac:
@@ -185,7 +225,12 @@ def gen_nl(rng):
     rec = {'driver': 'nl', 'mesh': mrec, 'bs': bs, 'grad': grad, 'fields': fields, 'alpha': int(rng.choice([-2, 2, 3])),
            'R': R, 'mode': 'residual' if mode == 'linear' else mode, 'lin': int(mode == 'linear'),
            'x': [int(v) for v in rng.integers(-2, 3, size=basis.N)] if rng.integers(0, 6) else [0] * basis.N}
-    return rec, {'a': 'NL', 'kind': kind, 'btype': btype, 'elem': fem.elem_name(spec), 'mode': mode, 'tier': 'exact'}
+    if rng.integers(0, 2):
+        rec['xs'] = [[int(v) for v in rng.integers(-2, 3, size=basis.N)] for _ in range(int(rng.integers(1, 3)))]
+    if reuse:
+        rec['bs2'] = dict(bs, **alt)
+    return rec, {'a': 'NL', 'kind': kind, 'btype': btype, 'elem': fem.elem_name(spec), 'mode': mode, 'tier': 'exact',
+                 'reuse': int(reuse), 'hist': len(rec.get('xs', []))}
 
 
 # ------------------------------------------------------------------------------------------ helpers
